@@ -88,30 +88,34 @@ def strip_time(node: ast.AST) -> ast.AST:
         return node
 
 
-def lin_of(node: ast.AST, env: Optional[Dict[str, "Lin"]] = None) -> Lin:
-    """Linear form of an arithmetic expression (opaque sub-expressions become terms)."""
-    node = strip_time(node)
+def lin_of(node: ast.AST, env: Optional[Dict[str, "Lin"]] = None, strip: bool = True) -> Lin:
+    """Linear form of an arithmetic expression (opaque sub-expressions become terms).
+
+    `strip=False` keeps `.time` / `.to()` / `EventTime(...)` opaque: needed when analysing
+    EventTime itself, where `.time` is the raw unit-dependent field."""
+    if strip:
+        node = strip_time(node)
     env = env or {}
     if isinstance(node, ast.Constant) and isinstance(node.value, (int, float)) and not isinstance(node.value, bool):
         return Lin(const=Fraction(node.value).limit_denominator(10**9))
     if isinstance(node, ast.Name) and node.id in env:
         return env[node.id]
     if isinstance(node, ast.UnaryOp) and isinstance(node.op, ast.USub):
-        return -lin_of(node.operand, env)
+        return -lin_of(node.operand, env, strip)
     if isinstance(node, ast.UnaryOp) and isinstance(node.op, ast.UAdd):
-        return lin_of(node.operand, env)
+        return lin_of(node.operand, env, strip)
     if isinstance(node, ast.BinOp):
         if isinstance(node.op, ast.Add):
-            return lin_of(node.left, env) + lin_of(node.right, env)
+            return lin_of(node.left, env, strip) + lin_of(node.right, env, strip)
         if isinstance(node.op, ast.Sub):
-            return lin_of(node.left, env) - lin_of(node.right, env)
+            return lin_of(node.left, env, strip) - lin_of(node.right, env, strip)
         if isinstance(node.op, ast.Mult):
-            l, r = lin_of(node.left, env), lin_of(node.right, env)
+            l, r = lin_of(node.left, env, strip), lin_of(node.right, env, strip)
             if l.is_const():
                 return r.scale(l.const)
             if r.is_const():
                 return l.scale(r.const)
-    if isinstance(node, ast.Call):
+    if isinstance(node, ast.Call) and strip:
         d = dotted(node.func)
         if d in ("EventTime.zero",):
             return Lin(const=0)
@@ -193,14 +197,14 @@ def f_not(f):
 
 
 def formula(node: ast.AST, integer: bool = True, env: Optional[Dict[str, Lin]] = None,
-            benv: Optional[Dict[str, tuple]] = None):
+            benv: Optional[Dict[str, tuple]] = None, strip: bool = True):
     """Boolean formula of a condition. `benv` maps local names to formulas (flags)."""
     benv = benv or {}
     if isinstance(node, ast.BoolOp):
-        parts = [formula(v, integer, env, benv) for v in node.values]
+        parts = [formula(v, integer, env, benv, strip) for v in node.values]
         return ("and" if isinstance(node.op, ast.And) else "or", parts)
     if isinstance(node, ast.UnaryOp) and isinstance(node.op, ast.Not):
-        return f_not(formula(node.operand, integer, env, benv))
+        return f_not(formula(node.operand, integer, env, benv, strip))
     if isinstance(node, ast.Constant) and isinstance(node.value, bool):
         return ("const", node.value)
     if isinstance(node, ast.Name) and node.id in benv:
@@ -209,16 +213,16 @@ def formula(node: ast.AST, integer: bool = True, env: Optional[Dict[str, Lin]] =
         parts = []
         left = node.left
         for op, right in zip(node.ops, node.comparators):
-            parts.append(_cmp(left, op, right, integer, env))
+            parts.append(_cmp(left, op, right, integer, env, strip))
             left = right
         return parts[0] if len(parts) == 1 else ("and", parts)
     # opaque boolean atom
     return ("atom", ("bool", norm(node)), True)
 
 
-def _cmp(left, op, right, integer, env):
+def _cmp(left, op, right, integer, env, strip=True):
     if isinstance(op, (ast.Lt, ast.LtE, ast.Gt, ast.GtE, ast.Eq, ast.NotEq)):
-        a, b = lin_of(left, env), lin_of(right, env)
+        a, b = lin_of(left, env, strip), lin_of(right, env, strip)
         if isinstance(op, ast.Lt):
             return _atom(*_canon_lt(a - b, integer))
         if isinstance(op, ast.LtE):
@@ -231,10 +235,11 @@ def _cmp(left, op, right, integer, env):
             return _atom(*_canon_eq(a - b))
         k, p = _canon_eq(a - b)
         return _atom(k, not p)
-    text = f"{norm(strip_time(left))} {type(op).__name__} {norm(strip_time(right))}"
+    st = strip_time if strip else (lambda x: x)
+    text = f"{norm(st(left))} {type(op).__name__} {norm(st(right))}"
     if isinstance(op, (ast.NotIn, ast.IsNot)):
         pos_name = "In" if isinstance(op, ast.NotIn) else "Is"
-        text = f"{norm(strip_time(left))} {pos_name} {norm(strip_time(right))}"
+        text = f"{norm(st(left))} {pos_name} {norm(st(right))}"
         return ("atom", ("bool", text), False)
     return ("atom", ("bool", text), True)
 
